@@ -335,6 +335,13 @@ func (vc *FuncVC) execCall(in ssa.Instruction, c *ssa.CallCommon, res ssa.Value)
 	}
 	for _, le := range entries {
 		vc.logReturn(le, flatten(result))
+		if vc.C != nil {
+			for _, a := range vc.C.AssumeAfter[le.w.Label] {
+				env := vc.newEnv(vc.cur, vc.entryState)
+				vc.assume(Implies(vc.g(), vc.evalBool(env, a)))
+				vc.note("assumed after call %s: %s", le.w.Label, a.Src)
+			}
+		}
 	}
 	if res != nil {
 		if result.Tuple == nil && sig.Results().Len() == 1 {
@@ -391,14 +398,74 @@ func (vc *FuncVC) havocOpaque(tag string) {
 		}
 		vc.assume(Eq(vc.loadLoc(vc.cur, l), vc.loadLoc(pre, l)))
 	}
+	// stable now:x.f.g — the location is resolved in the state before the call
+	for _, d := range vc.C.Stable {
+		if !strings.HasPrefix(d, "now:") {
+			continue
+		}
+		e, err := ParseExpr(strings.TrimPrefix(d, "now:"))
+		if err != nil {
+			panic(err)
+		}
+		env := vc.newEnv(pre, vc.entryState)
+		for _, l := range vc.designatorLocs(env, e) {
+			if !vc.protected(l.Comp) {
+				vc.assume(Eq(vc.loadLoc(vc.cur, l), vc.loadLoc(pre, l)))
+			}
+		}
+	}
+	// stable x.f[*]: the backing array the slice x.f has right now is not written
+	for _, d := range vc.C.Stable {
+		if !strings.HasSuffix(d, "[*]") {
+			continue
+		}
+		e, err := ParseExpr(strings.TrimSuffix(d, "[*]"))
+		if err != nil {
+			panic(err)
+		}
+		env := vc.newEnv(pre, vc.entryState)
+		sv := vc.eval(env, e)
+		if mt, isMap := sv.Typ.Underlying().(*types.Map); isMap {
+			dc, vn := vc.mapComps(mt)
+			for _, c := range []string{dc, vn} {
+				_, row := arrayParts(vc.comps[c])
+				vc.assume(Eq(Select(vc.cur.get(c), sv.T, row), Select(pre.get(c), sv.T, row)))
+			}
+			continue
+		}
+		sl, ok := sv.Typ.Underlying().(*types.Slice)
+		if !ok {
+			panic(fmt.Errorf("stable %s: not a slice or map", d))
+		}
+		arr := T(app("s_arr", sv.T), SInt)
+		var comps []string
+		if isStruct(sl.Elem()) {
+			vc.note("stable %s: struct elements are not covered", d)
+			continue
+		}
+		comps = []string{vc.elemComp(sl.Elem())}
+		for _, c := range comps {
+			_, row := arrayParts(vc.comps[c])
+			vc.assume(Eq(Select(vc.cur.get(c), arr, row), Select(pre.get(c), arr, row)))
+		}
+	}
 }
 
 func (vc *FuncVC) stableLocs() []*Loc {
-	if vc.stable != nil || len(vc.C.Stable) == 0 {
+	if vc.stableDone || len(vc.C.Stable) == 0 {
 		return vc.stable
 	}
+	vc.stableDone = true
 	env := vc.newEnv(vc.entryState, vc.entryState)
 	for _, d := range vc.C.Stable {
+		if strings.HasSuffix(d, "[*]") {
+			vc.note("assumed: opaque callees do not write the elements of %s", strings.TrimSuffix(d, "[*]"))
+			continue
+		}
+		if strings.HasPrefix(d, "now:") {
+			vc.note("assumed: opaque callees do not write %s (of the object it denotes at the time of the call)", strings.TrimPrefix(d, "now:"))
+			continue
+		}
 		e, err := ParseExpr(d)
 		if err != nil {
 			panic(err)
